@@ -21,7 +21,7 @@ EXPLANATION = (
     "the try variants never park and cannot reach a context switch, succeed only with acquisition and fail without touching "
     "the word.  Exclusion and progress over interleavings are not decided.")
 NOT_DECIDED = ["exclusion / progress over all interleavings of the CAS protocol"]
-ASSUMPTIONS = ["callers of rdunlock hold a read lock, callers of wrunlock hold the write lock (preconditions used to pick legal snapshots)"]
+ASSUMPTIONS = ["callers of rdunlock hold a read lock, callers of wrunlock hold the write lock (preconditions used to pick legal snapshots)", "the packed 21-bit counter fields do not overflow: fewer than 2^21 concurrent read holders, waiting readers and waiting writers (hunt/H05 findings 1 and 3 -- not decided by these rules)"]
 ST = "fiber_rwlock_state_t::state"
 UN = "fiber_rwlock_state_t"
 WAITQ = "fiber_manager_wait_in_mpsc_queue"
